@@ -91,7 +91,7 @@ def c01_value_trees(rng, tier):
 def gen_c01(tier, seed):
     rng = random.Random(seed * 1000 + 1)
     scens = []
-    n = 120 if tier == "quick" else 1500
+    n = 240 if tier == "quick" else 3000
     for i in range(n):
         t = random_tree(rng, nmax=rng.choice([3, 6, 10, 14]), modes=rng.choice(["simple", "all", "nosuid"]),
                         owners=rng.random() < 0.4)
@@ -164,7 +164,7 @@ def history_steps(rng, nsteps, interrupts=True, deletes=True, observe="restore_a
 @check("C02", "model_checking", "TLA+ spec + TLC (bounded histories) + trace validation of random operation histories on the real code")
 def gen_c02(tier, seed):
     rng = random.Random(seed * 1000 + 2)
-    n = 60 if tier == "quick" else 1200
+    n = 160 if tier == "quick" else 2500
     scens = []
     for i in range(n):
         steps = history_steps(rng, rng.choice([4, 6, 8, 12] if tier == "quick" else [6, 10, 16, 24]))
@@ -175,7 +175,7 @@ def gen_c02(tier, seed):
 @check("C13", "model_checking", "TLA+ spec (Format.tla = doc/format.md as a predicate) evaluated by TLC in every state of real traces decoded by an independent reader")
 def gen_c13(tier, seed):
     rng = random.Random(seed * 1000 + 13)
-    n = 60 if tier == "quick" else 1000
+    n = 140 if tier == "quick" else 2000
     scens = []
     for i in range(n):
         steps = history_steps(rng, rng.choice([3, 5, 8]), observe=None, validate=False, nmax=rng.choice([4, 8, 14]), pre_epoch=True)
@@ -200,7 +200,7 @@ def gen_c13(tier, seed):
 @check("C14", "model_checking", "TLA+ spec + TLC + trace validation: block writes of real runs judged by write-once and reuse monitors")
 def gen_c14(tier, seed):
     rng = random.Random(seed * 1000 + 14)
-    n = 40 if tier == "quick" else 600
+    n = 100 if tier == "quick" else 1200
     scens = []
     for i in range(n):
         # unchanged tree backed up twice (and a third time after a gc), dedup across versions
@@ -241,7 +241,7 @@ AFTER_CRASH = [{"op": "versions"}, {"op": "list_all"}, {"op": "restore_all"}, {"
 @check("C03", "model_checking", "TLA+ spec + TLC (every pc of the backup actor x clean/empty-file crash) + crash-point enumeration on the real code, every intermediate state judged by the spec's monitors")
 def gen_c03(tier, seed):
     rng = random.Random(seed * 1000 + 3)
-    n = 16 if tier == "quick" else 200
+    n = 32 if tier == "quick" else 300
     scens = []
     for i in range(n):
         o = rng.choice(OPTS_POOL[:6])
@@ -450,7 +450,7 @@ def gen_c07(tier, seed):
     mcs.append(("MC_Interlock.tla", "Interlock_race_repo.cfg", r))
     scens = []
     # single-writer clauses: histories with interrupted and resumed backups, deletes, gcs
-    n = 40 if tier == "quick" else 600
+    n = 100 if tier == "quick" else 1500
     for i in range(n):
         steps = history_steps(rng, rng.choice([4, 6, 9]), observe=None, validate=False)
         scens.append({"id": sid("C07", "h", i), "props": ["C07"], "mode": "clean", "tags": ["history"], "steps": steps})
@@ -520,7 +520,7 @@ def gen_c09(tier, seed):
                 out.append({"op": "validate", "quick": True})
         scens.append({"id": sid("C09", "healthy", i), "props": ["C09"], "mode": "clean", "tags": ["healthy"], "steps": out})
     # damage side
-    m = 14 if tier == "quick" else 150
+    m = 24 if tier == "quick" else 200
     for i in range(m):
         steps, o = damage_archive(rng)
         steps += [{"op": "validate", "quick": False},
@@ -535,7 +535,7 @@ def gen_c09(tier, seed):
 def gen_c10(tier, seed):
     rng = random.Random(seed * 1000 + 10)
     scens = []
-    m = 14 if tier == "quick" else 150
+    m = 24 if tier == "quick" else 200
     for i in range(m):
         steps, o = damage_archive(rng)
         steps += [{"op": "damage_sweep", "with_header": False, "with_tails": True, "bitflips": 2 if tier == "quick" else 6,
@@ -634,7 +634,7 @@ def gen_c12(tier, seed):
     r = cvlib.run_tlc_model("MC_Apath.tla", "MC_Apath_quick.cfg", timeout=1200)
     mcs.append(("MC_Apath.tla", "MC_Apath_quick.cfg", r))
     scens = [apath_table_scenario("C12", tier, rng)]
-    n = 50 if tier == "quick" else 600
+    n = 120 if tier == "quick" else 1200
     for i in range(n):
         t = c12_tree(rng)
         o = {"H": rng.choice([1, 2, 3, 4, 5, 7, 1000]), "M": rng.choice([2, 1000]), "S": rng.choice([1, 1000])}
@@ -679,7 +679,7 @@ def gen_c15(tier, seed):
     r = cvlib.run_tlc_model("MC_Exclude.tla", "MC_Exclude.cfg", timeout=600)
     mcs.append(("MC_Exclude.tla", "MC_Exclude.cfg", r))
     scens = []
-    n = 100 if tier == "quick" else 1500
+    n = 250 if tier == "quick" else 3000
     for i in range(n):
         t = random_tree(rng, nmax=rng.choice([6, 10, 16]), depth=4, names=EXCL_NAMES, pre_epoch=False, maxlen=4)
         pats = rng.sample(EXCL_PATTERNS, rng.randrange(1, 4))
@@ -705,11 +705,11 @@ LINK_TARGETS = ["@OUTSIDE@/sentinel_file", "@OUTSIDE@/sentinel_dir", "@OUTSIDE@/
                 "../outside/sentinel_dir", "../../outside/sentinel_file", "../outside/sentinel_link", "a", "d", ".", "/", "/etc/passwd", "dangling", "../outside"]
 
 
-@check("C16", "exploration", "TLA+ trace validation of real restores in a sandbox whose surroundings are watched (recursive lstat/content digest before and after); destination-refusal clause judged by TLC")
+@check("C16", "model_checking", "TLA+ spec (Restore.tla: restore as file-system calls with symlink resolution and the chown-clears-setuid rule, checked by TLC for all bounded trees; follow-variants refuted) + trace validation of real restores in a sandbox whose surroundings are watched (recursive lstat/content digest before and after)")
 def gen_c16(tier, seed):
     rng = random.Random(seed * 1000 + 16)
     scens = []
-    n = 80 if tier == "quick" else 1200
+    n = 250 if tier == "quick" else 3000
     for i in range(n):
         t = random_tree(rng, nmax=rng.choice([4, 7, 10]), depth=3, pre_epoch=False, maxlen=4, symlinks=False, names=["a", "b", "d", "e", "l", "m"])
         dirs = [nd for nd in t if nd["k"] == "Dir"]
@@ -726,7 +726,7 @@ def gen_c16(tier, seed):
         o = rand_opts(rng)
         steps = [{"op": "outside", "tree": OUTSIDE}, {"op": "tree", "tree": t}, bk(o)]
         dest = rng.choice(["fresh", "fresh", "absent", "nonempty"])
-        steps.append({"op": "restore", "band": 0, "dest": dest})
+        steps.append({"op": "restore", "band": 0, "dest": dest, "strace": i % 2 == 0})
         if rng.random() < 0.4:
             steps.append({"op": "restore", "band": 0, "dest": "nonempty", "overwrite": False})
         if rng.random() < 0.4:
@@ -743,7 +743,7 @@ def gen_c16(tier, seed):
 def gen_c17(tier, seed):
     rng = random.Random(seed * 1000 + 17)
     scens = []
-    n = 40 if tier == "quick" else 500
+    n = 100 if tier == "quick" else 1000
     # "-nodrain": the runtime is shut down as soon as the operation returns, as a command-line
     # program does; whatever the operation left to a spawned task may or may not happen
     flavors = ["ct", "mt1", "mt2", "mt8", "ct-nodrain", "mt2-nodrain"]
@@ -768,7 +768,7 @@ def gen_c18(tier, seed):
     r = cvlib.run_tlc_model("MC_Diff.tla", cfg, timeout=1800)
     mcs.append(("MC_Diff.tla", cfg, r))
     scens = []
-    n = 100 if tier == "quick" else 1500
+    n = 250 if tier == "quick" else 3000
     for i in range(n):
         t = random_tree(rng, nmax=rng.choice([4, 8, 12]), depth=3, pre_epoch=False, maxlen=5, owners=rng.random() < 0.3,
                         names=["a", "ab", "a.b", "b", "-", "é", "z", "d"])
@@ -778,7 +778,7 @@ def gen_c18(tier, seed):
         t2 = t
         for _ in range(rng.randrange(1, 3)):
             t2 = mutate_tree(rng, t2, maxlen=5, names=["a", "ab", "a.b", "b", "-", "é", "z", "d"],
-                             mtimes=cvlib.MTIMES + [(1600000000, 1), (1600000001, 123456788), (1600000002, 0)])
+                             mtimes=cvlib.MTIMES + [(1600000000, 1), (1600000000, 2), (1600000001, 123456788), (1600000001, 5), (1600000002, 0), (1600000002, 999999998)])
             steps += [{"op": "tree", "tree": t2}, {"op": "diff", "band": -2, "include_unchanged": rng.random() < 0.5},
                       {"op": "diff", "band": 0, "include_unchanged": False}, bk(o),
                       {"op": "diff", "band": -2, "include_unchanged": False}]
@@ -1016,7 +1016,7 @@ _C01 = ("MC_Conserve.tla", "MC_Conserve_c01.cfg", 600)
 _CRASH_T = ("MC_Conserve.tla", "MC_Conserve_thorough.cfg", 3000)
 _FAULT_T = ("MC_Conserve.tla", "MC_Conserve_fault_thorough.cfg", 3000)
 MODELS = {
-    "C01": {"quick": [_C01], "thorough": [_C01, _CRASH_T]},
+    "C01": {"quick": [_C01, ("Restore.tla", "Restore_repo.cfg", 300)], "thorough": [_C01, _CRASH_T, ("Restore.tla", "Restore_repo.cfg", 300)]},
     "C02": {"quick": [_CRASH], "thorough": [_CRASH_T]},
     "C03": {"quick": [_CRASH], "thorough": [_CRASH_T]},
     "C04": {"quick": [_FAULT], "thorough": [_FAULT_T]},
@@ -1024,6 +1024,7 @@ MODELS = {
     "C13": {"quick": [_CRASH], "thorough": [_CRASH_T, _FAULT_T]},
     "C14": {"quick": [_CRASH], "thorough": [_CRASH_T]},
     "C07": {"quick": [_CRASH], "thorough": [_CRASH_T]},
+    "C16": {"quick": [("Restore.tla", "Restore_repo.cfg", 300)], "thorough": [("Restore.tla", "Restore_repo.cfg", 300)]},
     "C09": {"quick": [("MC_Conserve.tla", "MC_Conserve_validate.cfg", 1800)], "thorough": [("MC_Conserve.tla", "MC_Conserve_validate.cfg", 1800), _CRASH]},
     "C10": {"quick": [_FAULT], "thorough": [_FAULT]},
 }
